@@ -8,6 +8,11 @@ Follows `samply-api/src/source/mod.rs:53-101` (`SourceApi::query_api`), branch b
 * `samply-symbols/src/lib.rs:283-302`            (`SymbolManager::load_source_file`)
 * `samply-api/src/symbolicate/mod.rs:229-251`    (the `file` / `inlines[].file` part of `create_response`;
                                                    the full `/symbolicate/v5` model is C07's)
+* `samply-symbols/src/lib.rs:304-362`            (`SymbolManager::load_symbol_map`: helper-supplied map, candidate loop)
+* `samply-api/src/symbolicate/mod.rs:69-130`     (one symbol map for a batch of addresses)
+* `samply-api/src/hex.rs:23-37`                  (`from_prefixed_hex_str`: the `moduleOffset` string)
+* `samply-symbols/src/symbol_map.rs:122-229`     (`SymbolMap::lookup` and `lookup_external`: the two external-file loops)
+* `wholesym/src/helper.rs:92-125`                (`WholesymFileLocation::location_for_source_file`)
 
 What `SymbolManager::load_symbol_map` + `SymbolMap::lookup` yield for the request's
 `(debugName, debugId, moduleOffset)` is an oracle (`Lookup`); the helper's
